@@ -725,8 +725,22 @@ def f_mean(a, axis=None, **kw):
     return _ax(l_mean)(a, axis=axis, **kw)
 
 
-f_nansum = _ax(l_nansum)
-f_nanmean = _ax(l_nanmean)
+_f_nansum = _ax(l_nansum)
+_f_nanmean = _ax(l_nanmean)
+
+
+def f_nansum(a, axis=None, **kw):
+    a = sa(a)
+    if a._mask is not None:       # NumPy's nan-functions respect the mask of a masked array
+        return ma_sum(a, axis=axis)
+    return _f_nansum(a, axis=axis, **kw)
+
+
+def f_nanmean(a, axis=None, **kw):
+    a = sa(a)
+    if a._mask is not None:
+        return ma_mean(a, axis=axis)
+    return _f_nanmean(a, axis=axis, **kw)
 f_min = _ax(l_min)
 f_max = _ax(l_max)
 f_nanmin = _ax(l_nanmin)
